@@ -23,7 +23,7 @@ RULE = ('random DAQmx files from vlib.daqmx.gen_daqmx; non-trivial = >=2 scalers
         '(digital, widths, buffer lengths, per-channel (raw, scaler types/buffers/offsets), per-segment (endian, nchunks, metadata kind))')
 ASSUMPTIONS = ['an acquisition buffer no scaler refers to has zero rows', 'scaled chunk streams are compared with slices of the eager scaled result']
 REQUIRED = ['scalers_decoded_short_reads', 'chunk_streams_collected_first', 'chunk_streams_read_in_loop', 'scalers_decoded_memmap', 'files_with_channel_switched_off', 'scalers_decoded', 'windows_compared', 'chunk_streams_compared', 'cuts_checked', 'contract:receiver.append_scaler_data']
-N = {'quick': 1500, 'thorough': 100000}
+N = {'quick': 1500, 'thorough': 50000}
 
 
 def gen_cases(tier, seed):
